@@ -200,6 +200,70 @@ def build_instance(repo, interp, cname):
         interp.call_hook = hook
 
 
+def _patterns():
+    import random
+    rnd = random.Random(16)
+    return {"protocol-only": [False] * 400, "command-only": [True] * 140, "alternating": [False, True] * 420,
+            "bursts": ([False] * 3 + [True] * 2) * 200, "mixed": [rnd.random() < 0.4 for _ in range(3000)]}
+
+
+def trajectories(repo, cname):
+    """what a freshly constructed connection issues for fixed call patterns (each in a process of its own)"""
+    fi = repo.own_method(cname, FN)
+    out = {}
+    for name, pat in _patterns().items():
+        interp = Interp(repo)
+        inst = build_instance(repo, interp, cname)
+        seq = []
+        for kind in pat:
+            interp.steps = 0
+            try:
+                seq.append(interp.call(fi, inst, [kind]))
+            except PyRaise as e:
+                seq.append(f"raises {e.what}")
+                break
+            except Undecided as e:
+                raise AnalysisError(f"{fi.qual}: cannot interpret: {e}")
+        out[name] = seq
+    return out
+
+
+def by_trajectory(ctx, repo, cname, fi):
+    """counter state held in an iterator / generator cannot be snapshotted and restored, so the reachable states are
+    walked along fixed call patterns instead (pure runs of each kind beyond two full cycles, strict alternation,
+    bursts, a long mixed pattern): range, never zero, successor law per kind whatever the other kind does"""
+    rets = {False: set(), True: set()}
+    n = 0
+    bad = False
+    for name, seq in trajectories(repo, cname).items():
+        prev = {False: None, True: None}
+        for kind, r in zip(_patterns()[name], seq):
+            n += 1
+            rng = CMD if kind else PROTO
+            kn = "command" if kind else "protocol"
+            if isinstance(r, str):
+                ctx.ob("R1", f"{cname}::raises", False, f"{fi.qual}({kind}) {r} after {n} draws of the pattern {name}", fi.loc)
+                bad = True
+                break
+            if not isinstance(r, int) or isinstance(r, bool) or r not in rng:
+                ctx.ob("R1", f"{cname}::{kn}-range", False, f"{fi.qual}({kind}) returns {r!r} (pattern {name}): outside {min(rng)}..{max(rng)}", fi.loc)
+                bad = True
+                break
+            if prev[kind] is not None and not succ_law(prev[kind], r, rng):
+                ctx.ob("R2", f"{cname}::{kn}-successor", False,
+                       f"{fi.qual}({kind}) returns {r} after {prev[kind]} (pattern {name}): not the successor in the cycle {min(rng)}..{max(rng)}", fi.loc)
+                bad = True
+                break
+            prev[kind] = r
+            rets[kind].add(r)
+    ctx.count(f"{cname}:trajectory_draws", n)
+    ctx.ob("R1", f"{cname}::protocol-set", rets[False] == PROTO or bad, f"{fi.qual}(False) issues {_rng(rets[False])}, expected exactly 1..191", fi.loc,
+           sample={"rule": "R1", "impl": cname, "draws": n, "mode": "trajectories (iterator-held state)"})
+    ctx.ob("R1", f"{cname}::command-set", rets[True] == CMD or bad, f"{fi.qual}(True) issues {_rng(rets[True])}, expected exactly 192..255", fi.loc)
+    ctx.ob("R1", f"{cname}::never-zero", 0 not in rets[False] | rets[True], f"{fi.qual} can return 0", fi.loc)
+    ctx.ob("R2", f"{cname}::successor-law", True, f"successor law checked on {n} draws along {len(_patterns())} call patterns")
+
+
 def fixpoint(ctx, repo, cname, tier):
     fi = repo.own_method(cname, FN)
     attrs = counter_attrs(fi)
@@ -230,6 +294,14 @@ def fixpoint(ctx, repo, cname, tier):
         if isinstance(n, (ast.Global, ast.Nonlocal)):
             ctx.ob("R3", f"{cname}::no-global", False, "counter function uses global/nonlocal state", loc(fi, n))
 
+    def _held(a_):
+        try:
+            return base.attrs[a_] if a_ in base.attrs else interp.getattr(base, a_)
+        except (PyRaise, Undecided):
+            return None
+    if any(hasattr(_held(a_), "__next__") for a_ in attrs):
+        by_trajectory(ctx, repo, cname, fi)
+        return fi, attrs, None
     start = (tuple(_deep_freeze(base.attrs[a]) for a in state_names), None, None)
     seen = {start}
     q = deque([start])
@@ -511,6 +583,14 @@ def sibling(ctx, repo, results):
     if len(results) != 2:
         return
     (fa, _, ta), (fb, _, tb) = results
+    if ta is None or tb is None:
+        # one of them keeps its state in an iterator: compared by what each issues along the same call patterns
+        ja, jb = trajectories(repo, fa.cls.short), trajectories(repo, fb.cls.short)
+        diff = [(k, i) for k in ja for i, (x, y) in enumerate(zip(ja[k], jb[k])) if x != y][:1] + [(k, "length") for k in ja if len(ja[k]) != len(jb[k])][:1]
+        ctx.ob("R5", "sibling-agreement", not diff,
+               f"{fa.qual} and {fb.qual} issue different numbers for the same calls, first at {diff[:1]}: "
+               f"{ja[diff[0][0]][diff[0][1]] if diff and isinstance(diff[0][1], int) else None} vs {jb[diff[0][0]][diff[0][1]] if diff and isinstance(diff[0][1], int) else None}", fa.loc)
+        return
     diff = [k for k in set(ta) | set(tb) if ta.get(k) != tb.get(k)]
     ctx.ob("R5", "sibling-agreement", not diff,
            f"{fa.qual} and {fb.qual} disagree on {len(diff)} (state, kind) pairs, e.g. {diff[:1]}: {ta.get(diff[0]) if diff else None} vs {tb.get(diff[0]) if diff else None}", fa.loc)
